@@ -147,6 +147,7 @@ fn vm_specs() -> Vec<PropSpec> {
             "C06" => vec![vm_leg(id, 1_500_000, 150_000_000)],
             "C16" => vec![vm_leg(id, 1_200_000, 30_000_000), Leg::Fuzz { target: "prog", runs: 20_000 }],
             "C15" => vec![vm_leg(id, 2_000_000, 200_000_000), timers_leg("C15", 1_000_000, 30_000_000)],
+            "C05" => vec![vm_leg(id, 3_000_000, 300_000_000), timers_leg("C05", 1_000_000, 30_000_000)],
             _ => vec![vm_leg(id, 3_000_000, 300_000_000)],
         },
         rule,
@@ -157,7 +158,7 @@ fn vm_specs() -> Vec<PropSpec> {
         mk("C02", "programs weighted towards actors with immediate/asynchronous/failing/never-completing init and calls in flight; non-trivial = (>= 2 calls made while the target was Prep, >= 1 held call flushed at Ready, >= 1 call after Ready) or a termination taking effect with calls queued behind it and >= 1 call discarded; distinct = distinct byte strings"),
         mk("C03", "programs weighted towards stacked stop/fail/kill!/direct kill/owner-drop requests; non-trivial = >= 2 termination requests aimed at one actor, or termination of a Prep actor with held calls; distinct = distinct byte strings"),
         mk("C04", "programs weighted towards owned()/anon()/slab/clone/drop of owning and non-owning references held in locals, global registers, queued closures and actor state; non-trivial = an owner dropped while another owner of the same actor exists, or a parent with grandchildren terminated, or a slab with >= 2 children and >= 1 termination; distinct = distinct byte strings"),
-        mk("C05", "programs weighted towards Ret::new / ret_some_do! / ret_to! / ret_some_to! / prep-style Rets moved into closures, messages, timers and actor state, answered or abandoned; non-trivial = a Ret abandoned outside run/inside Stakker drop, or inside a discarded call, or in calls held by a terminating Prep actor; distinct = distinct byte strings"),
+        mk("C05", "programs weighted towards Ret::new / ret_some_do! / ret_to! / ret_some_to! / prep-style Rets moved into closures, messages, timers and actor state, answered or abandoned; non-trivial = a Ret abandoned outside run/inside Stakker drop, or inside a discarded call, or in calls held by a terminating Prep actor (vm leg); timer leg: timer histories in which every callback closure carries a drop guard and a successful delete must drop it inside the delete call - non-trivial = a Min/Max or long fixed timer deleted after a run re-queued it; distinct = distinct byte strings"),
         mk("C06", "programs weighted towards lazy!/idle!/defer items submitting each other with arbitrary run(now, idle) sequences; non-trivial = a lazy item deferred main-queue work and a run with idle=true executed an idle item while more idle items waited; distinct = distinct byte strings"),
         mk("C15", "programs weighted towards run() instants that increase, repeat, go backwards and jump; non-trivial = a non-advancing run with work queued and an idle item executed in a run that advanced time (vm leg), or a non-advancing run while a timer was already due (timer leg: no callback may run then); distinct = distinct byte strings"),
         mk("C16", "programs with clone/drop storms on Actor/ActorOwn/Fwd/Deferrer and moves of Ret, checked by the item/message/handle registries and the per-case allocation-balance oracle (live heap allocations before == after, confirmed by re-execution); non-trivial = (main queue grown beyond 2 KiB or recreated) with >= 20 clone/drop operations, or an actor freed by its last weak reference after termination; distinct = distinct byte strings"),
